@@ -2784,10 +2784,32 @@ func (a *Agent) handlePeerDisconnect(conn *peer.Connection, err error) {
 
 // cleanupRelaysForPeer removes all relay entries involving the specified peer.
 func (a *Agent) cleanupRelaysForPeer(peerID identity.AgentID) {
-	if cleaned := a.tcpRelay.DeleteByPeer(peerID); cleaned > 0 {
-		a.logger.Debug("cleaned up relay streams",
-			logging.KeyPeerID, peerID.ShortString(),
-			logging.KeyCount, cleaned)
+	removed := a.tcpRelay.PopByPeer(peerID)
+	if len(removed) == 0 {
+		return
+	}
+	a.logger.Debug("cleaned up relay streams",
+		logging.KeyPeerID, peerID.ShortString(),
+		logging.KeyCount, len(removed))
+
+	// The other side of each relayed stream is still connected and would keep
+	// its relay entries, connection records and stream state for ever: tell
+	// it that the stream is gone.
+	reset := &protocol.StreamReset{ErrorCode: protocol.ErrHostUnreachable}
+	payload := reset.Encode()
+	for _, e := range removed {
+		dstPeer, dstID := e.UpstreamPeer, e.UpstreamID
+		if e.UpstreamPeer == peerID {
+			dstPeer, dstID = e.DownstreamPeer, e.DownstreamID
+		}
+		if dstPeer == peerID {
+			continue
+		}
+		a.peerMgr.SendToPeer(dstPeer, &protocol.Frame{
+			Type:     protocol.FrameStreamReset,
+			StreamID: dstID,
+			Payload:  payload,
+		})
 	}
 }
 
